@@ -896,6 +896,11 @@ theorem step_wf (s : State) (op : Op) (h : s.cfg.WF) (hop : ∀ src, op ≠ .rea
   | getFormat p => exact query_wf h p _
   | getOption o => exact h
   | write => exact h
+  | writeFile path =>
+    have e : (step s (.writeFile path)).1.cfg.root = s.cfg.root := by
+      simp only [step]; exact writeFile_root _ _ _
+    exact ⟨e ▸ h.1, e ▸ h.2, e ▸ h.3⟩
+  | cat path => exact h
   | mkfile p content => exact h
   | mkdir p => exact h
   | rmfile p => exact h
